@@ -377,6 +377,8 @@ def run_facet(facet, ctx):
     if facet.kind == 'given':
         n = facet.kw['n'][ctx.tier]
         shards = max(1, min(facet.kw['shards'][ctx.tier], n))
+        if n >= ncores() * 10:
+            shards = max(shards, ncores())      # use every core when there is enough work per shard
         per = [n // shards + (1 if i < n % shards else 0) for i in range(shards)]
         jobs = [(prop.id, facet.name, ctx.tier, ctx.seed, i, per[i])
                 for i in range(shards) if per[i] > 0]
